@@ -104,6 +104,7 @@ structure Case where
   id : String := ""
   clocks : Array ClockDecl := #[]
   cinfo : List (Nat × Rat × Nat × Option Nat) := []
+  ccfg : List (Nat × ClockCfg) := []      -- what `deriveClock` was asked for, per derived clock
   allocLine : List String := []
   rpins : List (Nat × Nat × Rat) := []
   npins : Nat := 0
@@ -171,6 +172,20 @@ def startCase (s : St) : St := Id.run do
     if cs.absFreq i != f then s := s.diff s!"absFreq clock={i} model={showRat (cs.absFreq i)} impl={showRat f}"
     if cs.clockPinSource i != ps then s := s.diff s!"clockPinSource clock={i} model={cs.clockPinSource i} impl={ps}"
     if cs.resetPinSource i != rs then s := s.diff s!"resetPinSource clock={i} model={repr (cs.resetPinSource i)} impl={repr rs}"
+  -- derived clocks: attributes = parent's, overridden by what the configuration gives (`deriveDecl`)
+  for (i, cfg) in c.ccfg do
+    let d := cs.get i
+    match d.parent with
+    | none => s := s.diff s!"ccfg for root clock {i}"
+    | some pi =>
+      let e := deriveDecl pi (cs.get pi) d.freqOrMul cfg
+      let inh := fun (o : Bool) => if o then "given" else "inherited"
+      if e.trig != d.trig then s := s.propfail s!"kind=derived-clock-attribute attr=trigger:{inh cfg.trig.isSome} clock={i} parent={pi} parent_trig={trigName (cs.get pi).trig} expected={trigName e.trig} reported={trigName d.trig}"
+      if e.rstType != d.rstType then s := s.propfail s!"kind=derived-clock-attribute attr=resetType:{inh cfg.rstType.isSome} clock={i} parent={pi} expected={rstName e.rstType} reported={rstName d.rstType}"
+      if e.activeHigh != d.activeHigh then s := s.propfail s!"kind=derived-clock-attribute attr=resetActive:{inh cfg.activeHigh.isSome} clock={i} parent={pi} expected={e.activeHigh} reported={d.activeHigh}"
+      if e.name != d.name then s := s.propfail s!"kind=derived-clock-attribute attr=name:{inh cfg.name.isSome} clock={i} parent={pi} expected={e.name} reported={d.name}"
+      if e.resetName != d.resetName then s := s.propfail s!"kind=derived-clock-attribute attr=resetName:{inh cfg.resetName.isSome} clock={i} parent={pi} expected={e.resetName} reported={d.resetName}"
+      if e.phaseSync != d.phaseSync then s := s.propfail s!"kind=derived-clock-attribute attr=phaseSync:{inh cfg.phaseSync.isSome} clock={i} parent={pi} expected={e.phaseSync} reported={d.phaseSync}"
   let a := cs.alloc
   let showL (l : List Nat) := String.join (l.map fun x => s!"{x},")
   let showP (l : List (Nat × Nat)) := String.join (l.map fun (x, y) => s!"{x}:{y},")
@@ -311,6 +326,12 @@ def handleLine (s : St) (line : String) : St :=
         rstType := parseRst (kv rest "rst"), activeHigh := kv rest "act" == "H", hasNodes := kv rest "nodes" == "1" }
     if i.toNat! != s.cur.clocks.size then s.diff s!"clock ids not dense at {i}"
     else { s with cur := { s.cur with clocks := s.cur.clocks.push cd } }
+  | "ccfg" :: i :: rest =>
+    let opt := fun (k : String) => let v := kv rest k; if v == "~" then none else some v
+    let cfg : ClockCfg :=
+      { name := opt "name", resetName := opt "rname", trig := (opt "trig").map parseTrig, phaseSync := (opt "psync").map (· == "1"),
+        rstType := (opt "rst").map parseRst, activeHigh := (opt "act").map (· == "H") }
+    { s with cur := { s.cur with ccfg := s.cur.ccfg ++ [(i.toNat!, cfg)] } }
   | "cinfo" :: i :: rest =>
     let r := kv rest "rstsrc"
     { s with cur := { s.cur with cinfo := s.cur.cinfo ++ [(i.toNat!, parseRat (kv rest "freq"), (kv rest "pinsrc").toNat!, if r == "-" then none else some r.toNat!)] } }
